@@ -5,3 +5,55 @@ From Yv Require Import Common.Base C12.Model C12.Spec C12.Proofs.
 
 Theorem inv_init : Inv empty.
 Proof. exact inv_empty. Qed.
+
+(* every operation keeps the job-table invariant *)
+Theorem inv_step : forall s o, Inv s -> op_ok s o = true -> Inv (step s o).
+Proof. exact inv_step_l. Qed.
+
+(* hence it holds after every history that respects the precondition *)
+Theorem inv_reachable : forall ops, ops_ok empty ops = true -> Inv (run ops).
+Proof. exact inv_reachable_l. Qed.
+
+(* the Rust panic sites of insert / update_status are never reached *)
+Theorem step_no_panic : forall s o, Inv s -> op_ok s o = true -> step_panics s o = false.
+Proof. exact step_no_panic_l. Qed.
+
+(* a job's index never changes while its pid designates a job *)
+Theorem job_number_stable : forall s o i j i',
+  Inv s -> op_ok s o = true -> get s i = Some j ->
+  find_by_pid (step s o) (jpid j) = Some i' -> i' = i.
+Proof. exact job_number_stable_l. Qed.
+
+(* a process ID designates at most one job *)
+Theorem pid_designates_one_job : forall s i1 i2 j1 j2,
+  Inv s -> get s i1 = Some j1 -> get s i2 = Some j2 -> jpid j1 = jpid j2 -> i1 = i2.
+Proof. exact pid_designates_one_job_l. Qed.
+
+(* the run-time oracle asks no more than the invariant gives *)
+Theorem inv_obs_sound : forall s pids, Inv s -> inv_obs (observe pids s) = true.
+Proof. exact inv_obs_sound_l. Qed.
+
+(* current job exists in a non-empty table; with two jobs a distinct previous job *)
+Theorem current_previous_spec : forall s, Inv s ->
+  (len s >= 1 -> exists c j, current_job s = Some c /\ get s c = Some j) /\
+  (len s >= 2 -> exists p j, previous_job s = Some p /\ get s p = Some j /\
+                             current_job s <> Some p).
+Proof. exact current_previous_spec_l. Qed.
+
+(* without the precondition (inserting a pid whose job is still alive) the
+   observable invariant fails: the table has two jobs but no previous job *)
+Example insert_live_pid_breaks_inv :
+  inv_obs (observe [10; 11]%Z
+             (run [OInsert 10 Running; OInsert 11 (Stopped 19); OInsert 11 (Stopped 19)]))
+  = false.
+Proof. exact insert_live_pid_breaks_inv_l. Qed.
+
+Print Assumptions inv_init.
+Print Assumptions inv_step.
+Print Assumptions inv_reachable.
+Print Assumptions step_no_panic.
+Print Assumptions job_number_stable.
+Print Assumptions pid_designates_one_job.
+Print Assumptions inv_obs_sound.
+Print Assumptions current_previous_spec.
+Print Assumptions insert_live_pid_breaks_inv.
